@@ -297,8 +297,51 @@ fn near_cuts(len: usize) -> Vec<usize> {
     v
 }
 
+
+/// object-API generic hash with a Vec key of `kl` bytes under several KEY_LENGTH parameters: one-shot vs incremental
+pub fn veckey_case(seed: u64, kl: usize, ev: &mut Evidence) -> Result<(), Violation> {
+    use dryoc::generichash::GenericHash;
+
+            let mut f = Fill::new(seed, &format!("C08:veckey:{kl}"));
+            let key: Vec<u8> = f.bytes(kl);
+            for mlen in [0usize, 1, 127, 128, 129, 300] {
+                let msg = f.bytes(mlen);
+                macro_rules! one {
+                    ($KL:expr, $OL:expr) => {{
+                        let a = no_panic(|| GenericHash::<$KL, $OL>::hash_to_vec(&msg, Some(&key)).map_err(|e| format!("{e:?}")));
+                        let b = no_panic(|| -> Result<Vec<u8>, String> {
+                            let mut h = GenericHash::<$KL, $OL>::new(Some(&key)).map_err(|e| format!("{e:?}"))?;
+                            h.update(&msg[..mlen / 2]);
+                            h.update(&msg[mlen / 2..]);
+                            h.finalize_to_vec().map_err(|e| format!("{e:?}"))
+                        });
+                        ev.eval(1);
+                        match (a, b) {
+                            (Ok(Ok(x)), Ok(Ok(y))) => {
+                                ev.class("object generichash, Vec key: one-shot vs incremental");
+                                ev.nontrivial(fnv64(&[b"veckey", &kl.to_le_bytes(), &mlen.to_le_bytes(), &[$KL as u8, $OL as u8]]));
+                                if x != y {
+                                    return Err(Violation::new("C08", "veckey", format!("GenericHash::<{}, {}> with a {kl}-byte Vec key, {mlen}-byte message: one-shot hash {} != incremental {}", $KL, $OL, hx(&x), hx(&y)), json!({"key_len": kl, "msg_len": mlen, "KL": $KL, "OL": $OL, "seed": seed})));
+                                }
+                            }
+                            (Ok(Err(_)), Ok(Err(_))) => ev.class("object generichash, Vec key: both refuse"),
+                            (Err(_), _) | (_, Err(_)) => ev.excluded("object generichash with a Vec key whose length differs from KEY_LENGTH panics (caller-side misuse; not judged)"),
+                            (Ok(Ok(_)), Ok(Err(e))) | (Ok(Err(e)), Ok(Ok(_))) => {
+                                return Err(Violation::new("C08", "veckey", format!("GenericHash::<{}, {}> with a {kl}-byte Vec key: one of one-shot / incremental succeeds and the other fails ({e})", $KL, $OL), json!({"key_len": kl, "msg_len": mlen, "KL": $KL, "OL": $OL, "seed": seed})));
+                            }
+                        }
+                    }};
+                }
+                one!(16, 32);
+                one!(32, 32);
+                one!(32, 64);
+                one!(64, 16);
+            }
+            Ok(())
+}
+
 pub fn run(ctx: &mut Ctx) -> Result<(), Violation> {
-    ctx.rule = "Interfaces: generichash (classic+object; unkeyed/keyed; digest 16/32/33/64), auth, onetimeauth, sha512, incremental signing+verification (classic+object). Enumerated: EVERY 2-way split of every length 0..=L2; EVERY 3-way split (i<=j, empty pieces included) of every length 0..=L3 for the 16-byte-buffer interface, and for the 128-byte-buffer interfaces every pair of cut points within 2 of {0,128,256,len} (thorough: unrestricted 3-way up to L3); plus proptest-random k-way partitions (k<=40, piece sizes biased to {0,1,B-1,B,B+1,2B}) of messages up to 8 KiB with shrinking. Oracle: incremental == dryoc one-shot == libsodium one-shot on the concatenation; signatures additionally verify incrementally. Non-trivial: >=2 non-empty pieces with a cut that is not a multiple of the block size, or an empty piece between non-empty ones; distinct = (interface,len,cuts).".into();
+    ctx.rule = "Interfaces: generichash (classic+object; unkeyed/keyed; digest 16/32/33/64), auth, onetimeauth, sha512, incremental signing+verification (classic+object). Enumerated: EVERY 2-way split of every length 0..=L2; EVERY 3-way split (i<=j, empty pieces included) of every length 0..=L3 for the 16-byte-buffer interface, and for the 128-byte-buffer interfaces every pair of cut points within 2 of {0,128,256,len} (thorough: unrestricted 3-way up to L3); plus deterministic many-small-piece families (uniform pieces of every size 1..=K, ramps, alternating pairs, uniform after a short first piece) and, for the object-API generic hash, Vec keys of every length 16..=64 under each KEY_LENGTH (one-shot vs incremental); plus proptest-random k-way partitions (k<=120, piece sizes biased to {0,1,B-1,B,B+1,2B}) of messages up to 8 KiB with shrinking. Oracle: incremental == dryoc one-shot == libsodium one-shot on the concatenation; signatures additionally verify incrementally. Non-trivial: >=2 non-empty pieces with a cut that is not a multiple of the block size, or an empty piece between non-empty ones; distinct = (interface,len,cuts).".into();
     ctx.assumptions = vec!["libsodium one-shot functions are the reference for the concatenated message".into()];
     let ifs = ifaces(ctx.seed);
     let l2 = ctx.tier.pick(400usize, 600);
@@ -370,6 +413,67 @@ pub fn run(ctx: &mut Ctx) -> Result<(), Violation> {
         Ok(())
     })?;
 
+    // many-small-pieces families: the same message as uniform pieces of every size k, ramps, alternating
+    // pairs and uniform pieces after a short first piece (prefix sums hit every multiple of k, in particular
+    // 64, 128 and 256 exactly, through long runs of updates that are each shorter than a block)
+    let fam_lens: Vec<usize> = ctx.tier.pick(vec![300usize, 515, 1030], vec![257, 300, 512, 515, 777, 1030, 2051]);
+    let kmax = ctx.tier.pick(130usize, 300);
+    let mut fam_items: Vec<(usize, usize)> = vec![];
+    for (i, _) in ifs.iter().enumerate() {
+        for &l in &fam_lens {
+            fam_items.push((i, l));
+        }
+    }
+    ctx.par_each(&fam_items, |_, &(ii, len), ev| {
+        let iface = &ifs_ref[ii];
+        let name = iface.name();
+        let msg = Fill::new(seed, &format!("C08:fam:{ii}:{len}")).bytes(len);
+        let sod = oneshot_sodium(iface, &msg).map_err(|m| Violation::new("C08", "chunking", m, json!({})))?;
+        let mut families: Vec<(String, Vec<usize>)> = vec![];
+        let cuts_from = |sizes: &mut dyn Iterator<Item = usize>| -> Vec<usize> {
+            let mut cuts = vec![];
+            let mut pos = 0usize;
+            for sz in sizes {
+                if pos + sz >= len {
+                    break;
+                }
+                pos += sz;
+                cuts.push(pos);
+            }
+            cuts
+        };
+        for k in 1..=kmax.min(len) {
+            families.push((format!("uniform-{k}"), cuts_from(&mut std::iter::repeat(k))));
+        }
+        families.push(("ramp-up".into(), cuts_from(&mut (1..))));
+        families.push(("ramp-down".into(), cuts_from(&mut (1..=64usize).rev().cycle())));
+        for (a, b) in [(1usize, 63usize), (63, 1), (15, 17), (13, 19), (31, 33), (7, 9), (0, 16), (16, 0)] {
+            families.push((format!("alternating-{a}-{b}"), cuts_from(&mut [a, b].into_iter().cycle())));
+        }
+        for k in [16usize, 32, 64, 128] {
+            for o in 0..k {
+                families.push((format!("offset-{o}-then-uniform-{k}"), cuts_from(&mut std::iter::once(o).chain(std::iter::repeat(k)))));
+            }
+        }
+        for (fname, cuts) in &families {
+            ev.eval(1);
+            ev.class(&format!("{name}:small-piece-families"));
+            ev.nontrivial(fnv64(&[name.as_bytes(), fname.as_bytes(), &len.to_le_bytes()]));
+            if fname == "uniform-16" {
+                ev.sample(&format!("family-{}", ii % 4), || json!({"iface": name, "len": len, "family": fname, "pieces": cuts.len() + 1}));
+            }
+            check_with_ref(iface, &msg, cuts, &sod).map_err(|m| Violation::new("C08", "chunking", format!("[{fname}] {m}"), serde_json::to_value(Case { iface: iface.clone(), msg: Hex(msg.clone()), cuts: cuts.clone() }).unwrap()))?;
+        }
+        Ok(())
+    })?;
+
+    // object-API generic hash with Vec keys of EVERY length 16..=64 under each KEY_LENGTH parameter: the one-shot
+    // `hash` and the incremental `new/update/finalize` must agree with each other (same inputs, same container)
+    {
+        let lens: Vec<usize> = (16..=64).collect();
+        ctx.par_each(&lens, |_, &kl, ev| veckey_case(seed, kl, ev))?;
+    }
+
     // random k-way partitions with shrinking
     use proptest::prelude::*;
     let nif = ifs.len();
@@ -379,8 +483,9 @@ pub fn run(ctx: &mut Ctx) -> Result<(), Violation> {
         1 => Just(15usize), 1 => Just(16usize), 1 => Just(17usize), 1 => Just(32usize),
         1 => Just(127usize), 2 => Just(128usize), 1 => Just(129usize), 1 => Just(256usize),
         3 => 0usize..700,
+        6 => 1usize..64,
     ];
-    let strat = (0..nif, proptest::collection::vec(piece, 0..40), any::<u64>(), 0usize..300);
+    let strat = (0..nif, proptest::collection::vec(piece, 0..120), any::<u64>(), 0usize..300);
     let n = ctx.tier.pick(40_000u32, 2_000_000);
     let ifs2 = ifs.clone();
     run_prop("C08", "chunking", seed, n, strat.prop_map(move |(ii, pieces, fill, tail)| {
@@ -410,6 +515,10 @@ pub fn run(ctx: &mut Ctx) -> Result<(), Violation> {
 }
 
 pub fn replay(v: &Violation) -> Result<(), String> {
+    if v.kind == "veckey" {
+        let mut ev = Evidence::default();
+        return veckey_case(v.case["seed"].as_u64().unwrap_or(1), v.case["key_len"].as_u64().unwrap_or(32) as usize, &mut ev).map_err(|v| v.message);
+    }
     let c: Case = from_case(&v.case)?;
     check(&c)
 }
